@@ -1,9 +1,11 @@
 #!/bin/sh
 # runall.sh [tier] [ids...] : run claimed (or given) checks sequentially, one summary line each
 TIER=${1:-quick}; shift 2>/dev/null
+HERE=$(cd "$(dirname "$0")/.." && pwd)
 IDS="$@"
-[ -z "$IDS" ] && IDS=$(python3 -c "import json;print(' '.join(json.load(open('/verif/check/claimed.json'))))")
+[ -z "$IDS" ] && IDS=$(python3 -c "import json;print(' '.join(json.load(open('$HERE/check/claimed.json'))))")
 for p in $IDS; do
-  out=$(python3 /verif/check/check.py $p --tier $TIER 2>&1); rc=$?
+  out=$(python3 $HERE/check/check.py $p --tier $TIER 2>&1); rc=$?
+  mkdir -p $HERE/.build; echo "$out" > $HERE/.build/runall_${p}_$TIER.log
   echo "$p rc=$rc $(echo "$out" | grep -E "theorems" | tail -1) $(echo "$out" | grep -c '^VIOLATION') violation(s) $(echo "$out" | grep -c '^KNOWN-FINDING') known"
 done
